@@ -7,7 +7,9 @@
 (* moved-to objects, repeated calls and concurrently sampling threads;     *)
 (* the engine state is (seed, position in the sequence).  memo is the      *)
 (* function learnt so far: every sample must agree with it.                *)
-(* Construction must throw exactly when max < min (bad = 1).               *)
+(* Construction must throw exactly when max < min (bad = 1).  Sampling     *)
+(* must leave the bytes of the generator object unchanged (no hidden       *)
+(* mutable state inside the object).                                       *)
 (***************************************************************************)
 EXTENDS Integers, Sequences, FiniteSets, TLC, Json, IOUtils
 
@@ -25,8 +27,10 @@ Samp == /\ IsEv("samp")
            ELSE memo' = memo @@ (key :> Ev.v)
         /\ l' = l + 1
 Cons == IsEv("cons") /\ Ev.threw = Ev.bad /\ l' = l + 1 /\ UNCHANGED memo
+\* calling a generator does not change it: its object representation is the same before and after sampling
+Bytes == IsEv("bytes") /\ Ev.same = 1 /\ l' = l + 1 /\ UNCHANGED memo
 Reset == IsEv("reset") /\ memo' = <<>> /\ l' = l + 1
-Next == Samp \/ Cons \/ Reset
+Next == Samp \/ Cons \/ Bytes \/ Reset
 Spec == Init /\ [][Next]_vars
 Progress == IF l > TLCGet(1) THEN TLCSet(1, l) ELSE TRUE
 Accepted == /\ PrintT(<<"MAXL", TLCGet(1), "LEN", Len(Tr)>>)
